@@ -32,6 +32,7 @@ H0 = 'io_loop::io_loop_handle::IoLoopHandle::'
 def run(ctx):
     _run_main(ctx)
     _shared_r4(ctx)
+    _shared_r5(ctx)
 
 
 def _run_main(ctx):
@@ -135,3 +136,10 @@ def _shared_r4(ctx):
     """Rules of other properties that are necessary conditions of this one too (found by seeding round 4)."""
     with ctx.rule('R02.6', "a publish on a healthy channel is never silently dropped: closing one channel does not seal the connection's output (shared with C09)", floor=1) as r:
         A.include(ctx, r, 'c09', 'R09.1', pick=('no-seal',))
+
+
+def _shared_r5(ctx):
+    """Rules of other properties that are necessary conditions of this one too (found by seeding round 5)."""
+    from rules import arms as A
+    with ctx.rule('R02.7', 'body frames are cut to the frame_max both sides agreed on: the lower of the two, 0 meaning no limit (shared with C15)', floor=1) as r:
+        A.include(ctx, r, 'c15', 'R15.1', pick=('frame_max', 'ok-row'))
